@@ -316,6 +316,11 @@ func (v *DeliverScopeVariables) Set(s context.Scope, name, operator string, val 
 			return errors.WithStack(err)
 		}
 		return nil
+	case ESI_ALLOW_INSIDE_CDATA:
+		if err := doAssign(v.ctx.EsiAllowInsideCData, operator, val); err != nil {
+			return errors.WithStack(err)
+		}
+		return nil
 	case RESP_RESPONSE:
 		var buf bytes.Buffer
 		if _, err := buf.ReadFrom(v.ctx.Response.Body); err != nil {
